@@ -1863,6 +1863,202 @@ def suite_failures(exe, tier, seed):
             "samples": samples, "violations": viol}
 
 
+# ---- C09: dead-value claims against an interpreter (BOUNDED)
+DV_P = 21888242871839275222246405745257275088548364400416034343698204186575808495617
+
+class DvProg:
+    """a function over locals v0..v3 and parameters p, q; every statement on its own line. Statements are tuples:
+    ('set', line, var, expr, op) with op in '=', '+=', 'decl'; ('if', line, cond, then, else); ('loop', line, bound, body); ('ret', line, expr).
+    Expressions: int | name | ('+', a, b) | ('*', a, b); conditions: ('<', a, b) | ('==', a, b)"""
+    def __init__(self):
+        self.lines = []
+        self.body = []
+
+def dv_expr_text(e):
+    if isinstance(e, tuple):
+        return f"({dv_expr_text(e[1])} {e[0]} {dv_expr_text(e[2])})"
+    return str(e)
+
+def dv_eval(e, env):
+    if isinstance(e, tuple):
+        a, b = dv_eval(e[1], env), dv_eval(e[2], env)
+        if e[0] == "+": return (a + b) % DV_P
+        if e[0] == "*": return (a * b) % DV_P
+        if e[0] == "<": return 1 if a < b else 0      # operands stay far below p/2 in the generated programs
+        if e[0] == "==": return 1 if a == b else 0
+    if isinstance(e, int):
+        return e
+    return env[e]
+
+class DvReturn(Exception):
+    def __init__(self, v): self.v = v
+
+def dv_run(stmts, env, trace, bump_line=None):
+    for st in stmts:
+        k = st[0]
+        if k == "set":
+            _, line, var, expr, op = st
+            v = dv_eval(expr, env)
+            if line == bump_line:
+                v = (v + 1) % DV_P
+            env[var] = (env[var] + v) % DV_P if op == "+=" else v
+        elif k == "if":
+            _, line, cond, a, b = st
+            c = dv_eval(cond, env)
+            trace.append((line, c))
+            dv_run(a if c else b, env, trace, bump_line)
+        elif k == "loop":
+            _, line, ivar, bound, body = st
+            env[ivar] = 0
+            while True:
+                c = 1 if env[ivar] < bound else 0
+                trace.append((line, c))
+                if not c: break
+                dv_run(body, env, trace, bump_line)
+                env[ivar] = env[ivar] + 1
+        elif k == "ret":
+            raise DvReturn(dv_eval(st[2], env))
+
+def dv_exec(prog, p, q, bump_line=None):
+    env = {"p": p, "q": q}
+    trace = []
+    try:
+        dv_run(prog.body, env, trace, bump_line)
+    except DvReturn as r:
+        return r.v, trace
+    return None, trace
+
+def dv_generate(rng, size):
+    prog = DvProg()
+    lines = ["pragma circom 2.0.0;", "function f(p, q) {"]
+    names = ["v0", "v1", "v2", "v3"]
+    body = []
+    def emit(text, depth):
+        lines.append("  " * (depth + 1) + text)
+        return len(lines)
+    def operand(avail):
+        return rng.choice(avail + [rng.randrange(0, 4)])
+    def expr(avail):
+        r = rng.random()
+        if r < 0.4: return operand(avail)
+        if r < 0.8: return ("+", operand(avail), operand(avail))
+        return ("*", operand(avail), rng.randrange(0, 3))
+    avail = ["p", "q"]
+    for n in names:
+        e = expr(avail)
+        ln = emit(f"var {n} = {dv_expr_text(e)};", 0)
+        body.append(("set", ln, n, e, "decl"))
+        avail.append(n)
+    loop_ix = [0]
+    def block(budget, depth, out):
+        while budget > 0:
+            budget -= 1
+            r = rng.random()
+            if r < 0.55 or depth >= 2:
+                v = rng.choice(names); e = expr(avail); op = rng.choice(["=", "=", "+="])
+                ln = emit(f"{v} {op} {dv_expr_text(e)};", depth)
+                out.append(("set", ln, v, e, op))
+            elif r < 0.8:
+                c = (rng.choice(["<", "=="]), operand(avail), operand(avail))
+                ln = emit(f"if ({dv_expr_text(c)[1:-1]}) {{", depth)
+                a, b = [], []
+                block(rng.randrange(1, 3), depth + 1, a)
+                if rng.random() < 0.5:
+                    emit("} else {", depth)
+                    block(rng.randrange(1, 3), depth + 1, b)
+                emit("}", depth)
+                out.append(("if", ln, c, a, b))
+            else:
+                loop_ix[0] += 1
+                iv = f"i{loop_ix[0]}"
+                bound = rng.randrange(1, 4)
+                ln = emit(f"for (var {iv} = 0; {iv} < {bound}; {iv}++) {{", depth)
+                inner = []
+                avail.append(iv)
+                block(rng.randrange(1, 3), depth + 1, inner)
+                avail.remove(iv)
+                emit("}", depth)
+                out.append(("loop", ln, iv, bound, inner))
+    block(size, 0, body)
+    e = expr(avail)
+    ln = emit(f"return {dv_expr_text(e)};", 0)
+    body.append(("ret", ln, e))
+    lines += ["}", "template T() { signal input in; signal output out; out <== in + f(1, 2); }", "component main = T();", ""]
+    prog.lines, prog.body = lines, body
+    return prog
+
+def dv_sets(stmts, acc):
+    for st in stmts:
+        if st[0] == "set": acc[st[1]] = st
+        elif st[0] == "if": dv_sets(st[3], acc); dv_sets(st[4], acc)
+        elif st[0] == "loop": dv_sets(st[4], acc)
+    return acc
+
+
+def suite_deadvalues(exe, tier, seed):
+    """C09 (BOUNDED): every `value never read` / `does not influence the return value` / `parameter never read` claim is
+    tested by replacing the value and running an interpreter of the generated program on a grid of inputs"""
+    import random
+    viol, samples = [], []
+    evals = nontrivial = claims = 0
+    n_prog = 40 if tier == "quick" else 1500
+    d = tempfile.mkdtemp(prefix="vx-e2e-")
+    grid = [(a, b) for a in (0, 1, 2, 5) for b in (0, 1, 3, 7)]
+    def add(ob, inp, what):
+        if len(viol) < 20 and not any(v["obligation"] == f"e2e|deadvalues|{ob}" for v in viol):
+            viol.append({"unit": "e2e", "fn": "side-effect / unused-variable analysis (whole pipeline)", "obligation": f"e2e|deadvalues|{ob}", "props": ["C09"], "input": inp, "what": what,
+                         "replay": "python3 run/e2e.py deadvalues quick 0"})
+    try:
+        for pi in range(n_prog):
+            rng = random.Random(9000 * seed + pi)
+            prog = dv_generate(rng, 3 + pi % 6)
+            src = "\n".join(prog.lines)
+            path = os.path.join(d, "dv.circom")
+            open(path, "w").write(src)
+            rc, out, err = run_cli(exe, ["-v", path], d)
+            evals += 1
+            if rc is None or rc not in (0, 1) or "panicked" in err:
+                add("run", {"program": pi, "source": src}, f"program {pi}: the tool aborted or hung (exit {rc})")
+                continue
+            if any(c.startswith("P") for (c, _, _) in coded_findings(out)):
+                raise RuntimeError("generator produced a program the tool rejects: " + src[:600])
+            sets = dv_sets(prog.body, {})
+            for (code, ln, text) in coded_findings(out):
+                if code in ("CS0006", "CS0008") and ln in sets:
+                    claims += 1; nontrivial += 1
+                    st = sets[ln]
+                    for (a, b) in grid:
+                        r0, t0 = dv_exec(prog, a, b)
+                        r1, t1 = dv_exec(prog, a, b, bump_line=ln)
+                        differs = (r0 != r1) if code == "CS0008" else (r0 != r1 or t0 != t1)
+                        if differs:
+                            add("value-is-used" if code == "CS0006" else "value-influences-return",
+                                {"program": pi, "line": ln, "statement": prog.lines[ln - 1].strip(), "inputs": {"p": a, "q": b}, "source": src},
+                                f"program {pi}, line {ln} `{prog.lines[ln - 1].strip()}`: the tool says ({code}) that the value assigned here {'is never read' if code == 'CS0006' else 'does not influence the return value'}, but with p = {a}, q = {b} the function returns {r0}, and {r1} when that value is replaced by the value plus one")
+                            break
+                elif code == "CS0007" and ln == 2:
+                    # which parameter: named in the message
+                    import re as _re
+                    m = _re.search(r"parameter `(\w+)`", text)
+                    if m and m.group(1) in ("p", "q"):
+                        claims += 1; nontrivial += 1
+                        for (a, b) in grid:
+                            r0, t0 = dv_exec(prog, a, b)
+                            r1, t1 = dv_exec(prog, a + 1, b) if m.group(1) == "p" else dv_exec(prog, a, b + 1)
+                            if (r0, t0) != (r1, t1):
+                                add("parameter-is-used", {"program": pi, "parameter": m.group(1), "inputs": {"p": a, "q": b}, "source": src},
+                                    f"program {pi}: the tool says (CS0007) that the parameter `{m.group(1)}` is never read, but changing it from {a if m.group(1) == 'p' else b} to {(a if m.group(1) == 'p' else b) + 1} (other parameter {b if m.group(1) == 'p' else a}) changes the result from {r0} to {r1}")
+                                break
+            if len(samples) < 4 and pi % 9 == 0:
+                samples.append({"program": pi, "lines": len(prog.lines), "claims_so_far": claims})
+    finally:
+        shutil.rmtree(d, ignore_errors=True)
+    return {"unit": "e2e-deadvalues", "evaluations": evals, "distinct_nontrivial": nontrivial, "exhaustive": False,
+            "rule": "the real CLI on generated functions (four locals declared with initial values, then assignments, compound assignments, if / else, counted for loops up to depth 2, a final return; operands are parameters, locals, loop counters and small constants; + and multiplication by a small constant): for every CS0006 (`value never read`) and CS0008 (`does not influence the return value`) finding anchored at an assignment, an interpreter of the generated program runs the function on 16 inputs twice — as written, and with the value assigned at that statement replaced by the value plus one — and the return values (for CS0006 also every branch and loop decision) must agree; for CS0007 (`parameter never read`) the parameter itself is varied",
+            "bound": f"{n_prog} generated functions of 3..8 body statements (seeded); 16 inputs each; {claims} claims examined",
+            "samples": samples, "violations": viol}
+
+
 def main():
     suite, tier, seed = sys.argv[1], (sys.argv[2] if len(sys.argv) > 2 else "quick"), int(sys.argv[3]) if len(sys.argv) > 3 else 0
     try:
@@ -1870,7 +2066,7 @@ def main():
     except Exception as e:
         print(json.dumps({"error": str(e)}))
         return
-    r = {"tuples": suite_tuples, "output": suite_output, "values": suite_values, "curves": suite_curves, "includes": suite_includes, "totality": suite_totality, "positions": suite_positions, "sigassign": suite_sigassign, "scopes": suite_scopes, "determinism": suite_determinism, "failures": suite_failures}[suite](exe, tier, seed)
+    r = {"tuples": suite_tuples, "output": suite_output, "values": suite_values, "curves": suite_curves, "includes": suite_includes, "totality": suite_totality, "positions": suite_positions, "sigassign": suite_sigassign, "scopes": suite_scopes, "determinism": suite_determinism, "failures": suite_failures, "deadvalues": suite_deadvalues}[suite](exe, tier, seed)
     print(json.dumps(r))
 
 if __name__ == "__main__":
